@@ -149,7 +149,10 @@ def render_file(f):
         emit_event(e, "")
     for t in f["tests"]:
         L.append("")
-        if t.get("xfail"):
+        if t.get("xfail") == "false":
+            L.append("import pytest")
+            L.append("@pytest.mark.xfail(False, reason='condition is false: an ordinary test')")
+        elif t.get("xfail"):
             L.append("import pytest")
             L.append("@pytest.mark.xfail")
         if t.get("param"):
